@@ -47,6 +47,7 @@ func c25run(ctx *vc.Ctx) {
 	}
 	c25query(ctx, bound)
 	c25fanout(ctx, bound)
+	c25fanoutStreams(ctx, bound-1)
 }
 
 func c25evs() []serf.Event {
